@@ -5,7 +5,7 @@
    arbitrary scopes, and covers error outcomes and := effects: both sides are compared as
    (outcome, scope) pairs.  ASCII case mapping; floats exact (see harness assumptions). *)
 From Coq Require Import String Ascii List Bool ZArith QArith.
-From Tally Require Import Lib.Str Expr.StrOps Expr.Date Expr.Syntax Expr.Funcs Expr.Eval C04.Proofs C04.NameCase.
+From Tally Require Import Lib.Str Gen.C04Whitespace Expr.StrOps Expr.Date Expr.Syntax Expr.Funcs Expr.Eval C04.Proofs C04.NameCase.
 Import ListNotations.
 Open Scope string_scope.
 
@@ -138,10 +138,39 @@ Theorem c04_normalized_spec :
   forall E p t,
     (fn_normalized E [VStr p] = Val (VBool (is_infix (normalize p) (normalize (t_description (e_txn E))))) /\
      fn_normalized E [VStr t; VStr p] = Val (VBool (is_infix (normalize p) (normalize t)))) /\
-    (forall c a b, norm_drop (upper_char c) = true -> normalize (a ++ String c b) = normalize (a ++ b)) /\
+    (* a blank (any of CPython's 29 whitespace code points), hyphen, apostrophe, period or asterisk is ignored ... *)
+    (forall s l1 c l2, cps (upper s) = (l1 ++ c :: l2)%list -> norm_drop c = true ->
+       normalize s = sconcat (filter (fun x => negb (norm_drop x)) (l1 ++ l2))) /\
+    (* ... every other code point is kept, in place *)
+    (forall s l1 c l2, cps (upper s) = (l1 ++ c :: l2)%list -> norm_drop c = false ->
+       normalize s = (sconcat (filter (fun x => negb (norm_drop x)) l1) ++ c ++
+                      sconcat (filter (fun x => negb (norm_drop x)) l2))%string) /\
     (forall a a', ci_equal a a' -> normalize a = normalize a').
-Proof. intros E p t. split; [apply normalized_spec|]. split; [apply normalize_drops|apply normalize_case]. Qed.
+Proof.
+  intros E p t. split; [apply normalized_spec|]. split; [apply normalize_drops|]. split; [apply normalize_keeps|apply normalize_case].
+Qed.
 Print Assumptions c04_normalized_spec.
+
+(* the model's table of blanks is the interpreter's: str.isspace = regex \s, regenerated on every run *)
+Theorem c04_whitespace_table_agrees : StrOps.ws_bytes = C04Whitespace.ws_bytes.
+Proof. reflexivity. Qed.
+Print Assumptions c04_whitespace_table_agrees.
+
+(* trim() / .strip() / the pieces of split(): text = blanks ++ result ++ blanks, the result neither starts nor ends
+   with a blank code point, and stripping twice changes nothing *)
+Theorem c04_trim_spec :
+  forall E s,
+    fn_trim E [VStr s] = Val (VStr (strip s)) /\
+    (exists pre post, s = (sconcat pre ++ strip s ++ sconcat post)%string /\
+       Forall (fun c => is_space_cp c = true) pre /\ Forall (fun c => is_space_cp c = true) post /\
+       match strip_cps (cps s) with x :: _ => is_space_cp x = false | [] => True end /\
+       match rev (strip_cps (cps s)) with x :: _ => is_space_cp x = false | [] => True end) /\
+    strip_cps (strip_cps (cps s)) = strip_cps (cps s) /\
+    sconcat (cps s) = s.
+Proof.
+  intros E s. split; [reflexivity|]. split; [apply strip_spec|]. split; [apply strip_idempotent_cps|apply cps_concat].
+Qed.
+Print Assumptions c04_trim_spec.
 
 (* regex(): decided by re.search(pattern, text, IGNORECASE) (oracle) alone; invalid pattern = ExpressionError *)
 Theorem c04_regex_ci :
@@ -233,6 +262,43 @@ Theorem c04_zero_divisors :
   forall rv, eq_zero rv = true <-> rv = VBool false \/ rv = VInt 0 \/ exists q, rv = VFloat q /\ Qeq q 0.
 Proof. exact eq_zero_spec. Qed.
 Print Assumptions c04_zero_divisors.
+
+(* ---------------- name resolution ---------------- *)
+(* a bare name resolves, lower-cased, through: scope (loop variables, := targets) -> user variables -> transaction
+   primitives -> supplemental tables -> ExpressionError *)
+Theorem c04_name_resolution_order :
+  forall E id sc,
+    eval E (EName id) sc =
+    (match sget sc (lower id) with
+     | Some v => Val v
+     | None =>
+         match sget (e_vars E) (lower id) with
+         | Some v => Val v
+         | None =>
+             match primitive_value E (lower id) with
+             | Some v => Val v
+             | None => match sget (e_ds E) (lower id) with Some v => Val v | None => ExprErr end
+             end
+         end
+     end, sc).
+Proof. exact name_resolution_order. Qed.
+Print Assumptions c04_name_resolution_order.
+
+(* txn.<name> and field.<name> are never shadowed: two evaluations that agree on the transaction agree on them,
+   whatever their scopes, user variables, tables and oracles hold (even entries called txn, field, amount, ...) *)
+Theorem c04_txn_field_never_shadowed :
+  forall E E' id attr sc sc',
+    e_txn E = e_txn E' -> lower id = "txn" \/ lower id = "field" ->
+    fst (eval E (EAttribute (EName id) attr) sc) = fst (eval E' (EAttribute (EName id) attr) sc') /\
+    snd (eval E (EAttribute (EName id) attr) sc) = sc.
+Proof.
+  intros E E' id attr sc sc' HT [H|H].
+  - rewrite !(eval_txn_attr _ id attr _ H). cbn [fst snd]. split; [|reflexivity].
+    unfold txn_attr, date_part, date_value. now rewrite HT.
+  - rewrite !(eval_field_attr _ id attr _ H). cbn [fst snd]. split; [|reflexivity].
+    unfold field_attr, date_value. now rewrite HT.
+Qed.
+Print Assumptions c04_txn_field_never_shadowed.
 
 (* ---------------- := ---------------- *)
 Theorem c04_walrus_binds :
@@ -472,3 +538,16 @@ Example c04_example_name_case :
   fst (eval ex_env (ECompare (ECall (EName "CONTAINS") [EAttribute (EName "FIELD") "MEMO"; strc "ref"] []) [(Eq, EName "TRUE")]) [])
   = Val (VBool true).
 Proof. split; [exact lower_upper|]. vm_compute. split; reflexivity. Qed.
+
+Example c04_example_resolution_and_blanks :
+  (* a loop variable, a := target and a user variable called amount: the bare name is shadowed, txn.amount is not *)
+  fst (eval ex_env (EName "K") [("k", VInt 9)]) = Val (VInt 9) /\ fst (eval ex_env (EName "K") []) = Val (VInt 3) /\
+  fst (eval ex_env (EName "amount") [("amount", VStr "bound")]) = Val (VStr "bound") /\
+  fst (eval ex_env (EAttribute (EName "txn") "amount") [("amount", VStr "bound"); ("txn", VStr "bound")]) = Val (VFloat (25 # 2)) /\
+  (* NBSP (C2 A0) and IDEOGRAPHIC SPACE (E3 80 80) are blanks; ZERO WIDTH SPACE (E2 80 8B) is not *)
+  strip (bytes [194; 160; 65; 32; 66; 227; 128; 128]%N) = "A B" /\
+  normalize (bytes [119; 104; 111; 108; 101; 194; 160; 102; 111; 111; 100; 115]%N) = "WHOLEFOODS" /\
+  normalize (bytes [97; 226; 128; 139; 98]%N) = bytes [65; 226; 128; 139; 66]%N /\
+  split_ws (bytes [97; 226; 128; 137; 98; 32; 32; 99]%N) = ["a"; "b"; "c"] /\
+  length ws_codepoints = 29%nat.
+Proof. vm_compute. repeat split; reflexivity. Qed.
